@@ -226,6 +226,29 @@ func genC08(r *rngT, n int, tier string) {
 		}
 		execOp(fmt.Sprintf("fix %s %s %s %d", dn, key, encFrame(g), 1+r.Intn(2)))
 		stat("c08-fix")
+		// a RECEIVED signed frame whose checksum is already right (nothing in header or payload was edited) but whose signature
+		// was made by another key, or whose link id / timestamp the application changed: FixFrame must sign it again
+		{
+			val2 := randValue(r, m)
+			raw2 := rw.Write(val2, true)
+			h := &frame.V2Frame{IncompatibilityFlag: 1, SequenceNumber: r.byte(), SystemID: r.byte(), ComponentID: r.byte(),
+				Message: &message.MessageRaw{ID: m.GetID(), Payload: raw2.Payload}, SignatureLinkID: r.byte(), SignatureTimestamp: r.ts48()}
+			setChecksum(h, rw.CRCExtra())
+			nodeKey := r.bytes(32)
+			signKey := nodeKey
+			if r.bool() {
+				signKey = r.bytes(32) // signed upstream with another key
+			}
+			sign(h, signKey)
+			if r.bool() { // the application edits the signature fields after receiving
+				h.SignatureLinkID ^= 1 + r.byte()%255
+				h.SignatureTimestamp = r.ts48()
+			}
+			hd := &frame.V2Frame{IncompatibilityFlag: 1, SequenceNumber: h.SequenceNumber, SystemID: h.SystemID, ComponentID: h.ComponentID,
+				Message: val2, Checksum: h.Checksum, SignatureLinkID: h.SignatureLinkID, SignatureTimestamp: h.SignatureTimestamp, Signature: h.Signature}
+			execOp(fmt.Sprintf("fix %s %s %s 2", dn, hx(nodeKey), encFrame(hd)))
+			stat("c08-fix-resign")
+		}
 		// a v1 frame edited on a node of either version
 		if m.GetID() <= 255 {
 			g1 := &frame.V1Frame{SequenceNumber: r.byte(), SystemID: r.byte(), ComponentID: r.byte(), Checksum: uint16(r.Intn(65536)), Message: randValue(r, m)}
